@@ -89,6 +89,13 @@ Definition sb_agreeb (s : superblock_spec) (v : superblock') : bool :=
   | None => (spp_base v =? sbs_base s) && (spp_superext v =? sbs_ext s)
   end.
 
+(* ReaderSpecInfo.ai_agree *)
+Definition ai_agreeb (s : attrinfo_spec) (v : attrinfo) : bool :=
+  (ai_version v =? 0) && (ai_flags v =? ais_flags s) &&
+  (ai_maxcidx v =? match ais_maxcidx s with Some m => m | None => 0 end) &&
+  (ai_heap v =? ais_heap s) && (ai_btname v =? ais_btname s) &&
+  (ai_btorder v =? match ais_btorder s with Some b => b | None => 0 end).
+
 Definition rs_code (kind : N) (ctx : list N) (bs : bytes) : N :=
   match kind with
   | 1 => rs_outcome (spec_dec_superblock strict bs) (dec_superblock bs) (fun x v => sb_agreeb (fst (fst x)) v)
@@ -99,6 +106,8 @@ Definition rs_code (kind : N) (ctx : list N) (bs : bytes) : N :=
            ly_agreeb
   | 9 => rs_outcome (spec_dec_attribute strict (cn ctx 0) (cb ctx 1) bs) (dec_attribute false bs)
            (fun x v => at_agreeb (fst x) v)
+  | 10 => rs_outcome (spec_dec_attrinfo (cn ctx 0) false bs)
+            (dec_attrinfo {| sb_version := 0; sb_offsize := cx ctx 0; sb_lensize := 8; sb_bigendian := false |} bs) ai_agreeb
   | 11 => rs_outcome (spec_dec_link strict (cn ctx 0) true bs) (dec_link (cx ctx 0) bs) (fun x v => lk_agreeb (fst x) v)
   | 12 => rs_outcome (spec_dec_symtab (cn ctx 0) (cb ctx 1) bs) (dec_symtab false bs) st_agreeb
   | _ => 0
